@@ -16,7 +16,7 @@ from verif.specs import sx
 from verif.specs.sx import X
 
 LEVEL = 'other'
-EXPECTED_MIN = {'quick': 22, 'thorough': 30}
+EXPECTED_MIN = {'quick': 28, 'thorough': 40}
 EXPLANATION = ('PROVED stage by stage with symbolic inputs at each stage boundary: dof axes in the subtree-CoM frame (cdof) for hinge / slide / free dofs and stacks under an arbitrary '
                'parent pose (exact normal form); link velocities cd = sum of ancestor dofs, cdofd = cd x cdof; link inertias about the tree CoM (cinr) = R I R^T + m(|h|^2 E - h h^T) with first moment m h, whose quadratic form on any motion is the sum of squares (R^T w).I(R^T w) + m|v - h x w|^2; mass.matrix = composite-rigid-body form with the ancestor mask, '
                'symmetry and armature; dynamics.inverse = recursive Newton-Euler form; passive force -k q - d qd; qf_smooth = passive - bias + tau; integrator: (M + dt D) qdd = '
